@@ -25,7 +25,7 @@ BOUNDS = {
     "quick": dict(D=[2], rcap=4, full_alphabet_depth=2, reduced_alphabet_depth=3, vi=[0, 100], D_shallow=[1, 3], shallow_depth=1),
     "thorough": dict(D=[1, 2, 3], rcap=6, full_alphabet_depth=3, reduced_alphabet_depth=6, vi=[0, 1, 100]),
 }
-BUDGET = {"quick": 900, "thorough": 7200}
+BUDGET = {"quick": 900, "thorough": 5400}
 CHECKS = ("model", "caches")
 
 
@@ -50,7 +50,7 @@ def run_shard(shard, ctx, checks=CHECKS, budget=None):
     tier = shard["tier"]
     B = BOUNDS[tier]
     sys_ = _graph.GaussSystem(shard["D"], shard["seed"], shard["vi"], shard["level"], B["rcap"], shard["spec"], checks=checks)
-    deadline = time.time() + (budget or (BUDGET[tier] * 0.6))
+    deadline = min(time.time() + (budget or (BUDGET[tier] * 0.6)), shard.get("deadline", 1e18))
     st = bfs.explore(sys_, ctx, shard["depth"], deadline=deadline)
     ctx.count("states", st["states"])
     ctx.count("transitions", st["transitions"])
